@@ -208,6 +208,47 @@ def run_batch_and_python(start, n, dt):
         if bad:
             break
     b.end_session()
+    # two scenarios in one session (base: k=2, alt: k=3), a step setting for one of them only
+    b3 = factory()
+    refs = {"base": reference(start, stop, dt, [])[0], "alt": None}
+    spec_alt = srv.ref_spec(start, stop, dt, k=3.0)
+    from mc import refsd as _refsd
+    from fractions import Fraction as _F
+    thr = float(_F(str(start)) + _F(str(dt)) / 2)
+    spec_alt["elements"]["k"] = {"kind": "converter", "eq": ["if", ["bin", ">=", ["time"], ["num", thr]], ["num", 0.5], ["num", 3.0]]}
+    refs["alt"] = _refsd.RefModel(spec_alt)
+    b3.begin_session(scenarios=["base", "alt"], scenario_managers=[SM], equations=EQS)
+    for i, t in enumerate(times):
+        r = b3.run_step(settings={SM: {"alt": {"constants": {"k": 0.5}}}} if i == 1 else None)
+        bad = False
+        for scn in ("base", "alt"):
+            for eq in EQS:
+                try:
+                    (tt, v), = r[SM][scn][eq].items()
+                except Exception as e:
+                    viol.append(("two-scenario-session/shape", "%s: step %d %s/%s: %r" % (label, i, scn, eq, e)))
+                    bad = True
+                    break
+                if not core.close(tt, float(t)) or not core.close(v, refs[scn].value(eq, t), rel=1e-9, ab=1e-9):
+                    viol.append(("value/two-scenario-session/%s" % eq, "%s: scenario %s step %d (k:=0.5 for alt at step 1): %s(%r) = %r, reference %r" % (
+                        label, scn, i, eq, tt, v, refs[scn].value(eq, t))))
+                    bad = True
+                    break
+            if bad:
+                break
+        if bad:
+            break
+    if not any(c.startswith("value/two") or c.startswith("two-") for c, _ in viol):
+        by_eq = b3.session_results(index_by_time=False)
+        for scn in ("base", "alt"):
+            for eq in EQS:
+                ser = {float(k2): v for k2, v in by_eq[SM][scn]["equations"][eq].items()}
+                for t in times:
+                    hit = [v for k2, v in ser.items() if core.close(k2, float(t))]
+                    if len(hit) != 1 or not core.close(hit[0], refs[scn].value(eq, t), rel=1e-9, ab=1e-9):
+                        viol.append(("value/two-scenario-session-results/%s" % eq, "%s: %s %s(%r) = %r, reference %r" % (label, scn, eq, float(t), hit, refs[scn].value(eq, t))))
+                        break
+    b3.end_session()
     b = factory()
     app, client = srv.make_server(factory)
     r = client.post("/run", json={"scenario_managers": [SM], "scenarios": ["base"], "equations": EQS})
